@@ -914,6 +914,45 @@ func checkExports(ctx context.Context, r *simkit.Run, w *world, dir string, step
 		r.Fail(prop, "hcl-export", "hcl-roundtrip-diff/"+reached, "step %d: evaluating the exported HCL does not give the inspected schema: forward [%s] backward [%s]\n%s", step, changeKinds(fwd), changeKinds(back), hcl1)
 		return
 	}
+	// The differ has documented blind spots (AUTOINCREMENT, type names inside a class, ...). To see
+	// what the HCL document really says, the evaluated schema is also created on a fresh engine and
+	// its observer catalog compared with the original's.
+	s2.Name = "main"
+	if hchanges, err := drv.SchemaDiff(schema.New("main"), &s2); err == nil && len(hchanges) > 0 {
+		hplan, err := drv.PlanChanges(ctx, "hcl", hchanges)
+		if err != nil {
+			r.Fail(prop, "hcl-export", "hcl-plan-error", "step %d: planning the evaluated HCL failed: %v", step, err)
+			return
+		}
+		hp := filepath.Join(dir, "hclexport.db")
+		os.Remove(hp)
+		hdb := openDB(hp, false)
+		for _, c := range hplan.Changes {
+			if _, err := hdb.Exec(c.Cmd); err != nil {
+				hdb.Close()
+				r.Fail(prop, "hcl-export", "hcl-export-not-creatable/"+reached, "step %d: the schema the exported HCL describes cannot be created: %v\nstatement: %s\n%s", step, err, c.Cmd, hcl1)
+				return
+			}
+		}
+		hcat, err := ReadCatalog(hdb)
+		hdb.Close()
+		if err != nil {
+			simkit.Harnessf("catalog: %v", err)
+		}
+		hobs, _ := observe.Open(w.path)
+		lcat, err := ReadCatalog(hobs)
+		hobs.Close()
+		if err != nil {
+			simkit.Harnessf("catalog: %v", err)
+		}
+		// Size/precision parameters are not part of Atlas' SQLite types (the catalog drops them), a
+		// UNIQUE constraint comes back as a unique index: compared under those two equivalences only.
+		if d := DiffCatalogs(unifyUnique(hcat), unifyUnique(lcat)); d != "" {
+			r.Fail(prop, "hcl-export", "hcl-export-catalog-differs/"+reached, "step %d: the database created from the exported HCL differs from the original (live = recreated, want = original):\n%s\n%s", step, d, hcl1)
+			return
+		}
+		r.Probe("hcl-export-recreated")
+	}
 	// SQL export = plan(empty -> inspected) in dump mode, executed on a fresh engine.
 	realm := inspectRealm(ctx, drv)
 	changes, err := drv.RealmDiff(schema.NewRealm(schema.New("main")), realm)
@@ -1207,6 +1246,30 @@ func columnValues(db *sql.DB, table, col string) []string {
 		var v string
 		rows.Scan(&v)
 		out = append(out, v)
+	}
+	return out
+}
+
+// unifyUnique rewrites only the unique-constraint / unique-index equivalence of Relax.
+func unifyUnique(cat map[string]string) map[string]string {
+	out := map[string]string{}
+	for n, c := range cat {
+		lines := strings.Split(c, "\n")
+		for i, l := range lines {
+			if strings.HasPrefix(l, "index ") && strings.Contains(l, " unique=1 ") && strings.HasSuffix(l, " where=") {
+				if k := strings.Index(l, " parts="); k >= 0 {
+					rest := l[k:]
+					if d := strings.Index(rest, " def="); d >= 0 {
+						rest = rest[:d]
+					}
+					if !strings.Contains(rest, "<expr>") && !strings.Contains(rest, "/1") {
+						lines[i] = "index <unique> unique=1" + rest
+					}
+				}
+			}
+		}
+		sort.Strings(lines)
+		out[n] = strings.Join(lines, "\n")
 	}
 	return out
 }
